@@ -551,6 +551,23 @@ func builderCmd(args []string) error {
 			}
 		}
 	}
+	if want["fees"] {
+		// the corner where the quoted fee is zero (a zero rate, or a rate that floors to zero for this size) and
+		// inputs equal / exceed / fall short of outputs by one satoshi
+		for _, q := range []quote{{0, 1, 0, 1}, {1, 100000, 1, 100000}, {0, 5, 3, 1}} {
+			for _, d := range []int{-1, 0, 1} {
+				for _, data := range []bool{false, true} {
+					tx := bt.NewTx()
+					addInput(tx, 1, 0, uint64(1000+d), p2pkhScript(1))
+					tx.AddOutput(&bt.Output{Satoshis: 1000, LockingScript: p2pkhScript(2)})
+					if data {
+						tx.AddOutput(&bt.Output{Satoshis: 0, LockingScript: fillerScript(20, true)})
+					}
+					emit(feesEvent("gen-zero-fee", tx, q))
+				}
+			}
+		}
+	}
 	if want["change"] {
 		addrKey, _ := bec.NewPrivateKey(bec.S256())
 		addr, _ := bscript.NewAddressFromPublicKey(addrKey.PubKey(), true)
